@@ -65,7 +65,7 @@ func (g *gen) decls(exported bool) (decls []string, prints []string) {
 					ints = append(ints, vn)
 				}
 				if t.typ == "[]int" {
-					prints = append(prints, "len("+vn+")")
+					prints = append(prints, vn+"[0]")
 				} else {
 					prints = append(prints, vn)
 				}
@@ -166,7 +166,7 @@ func (g *gen) mainFunc(b *strings.Builder, prints []string) {
 		b.WriteString("\tprintln(" + strings.Join(prints[i:min(i+4, len(prints))], ", ") + ")\n")
 	}
 	// locals: closures, labels, gotos, several labels and variables per scope
-	b.WriteString("\ti := 0\nL1:\n\tif i < 2 {\n\t\ti++\n\t\tgoto L1\n\t}\nL2:\n\tfor j := 0; j < 3; j++ {\n\t\tif j == 1 {\n\t\t\tcontinue L2\n\t\t}\n\t\tx, y, z := j, j*2, j*3\n\t\tf := func() int { return x + y + z + i }\n\t\tprintln(f())\n\t}\n")
+	b.WriteString("\ti := 0\nL1:\n\tif i < 2 {\n\t\ti++\n\t\tgoto L1\n\t}\nL2:\n\tfor j := 0; j < 3; j++ {\n\t\tif j == 1 {\n\t\t\tbreak L2\n\t\t}\n\t\tx, y, z := j, j*2, j*3\n\t\tf := func() int { return x + y + z + i }\n\t\tprintln(f())\n\t}\n")
 	if g.r.Intn(2) == 0 {
 		b.WriteString("\ta, b, c, d := 1, \"s\", 2.5, []int{1}\n\tfunc() { println(a, b, c, len(d)) }()\n")
 	}
@@ -196,7 +196,7 @@ func (g *gen) templateFS() (map[string]string, string) {
 	if g.r.Intn(2) == 0 {
 		a, b2 := g.id("W"), g.id("W")
 		vars = append(vars, a)
-		imp.WriteString(fmt.Sprintf("{%% var %s, %s = two() %%}{%% _ = %s %%}", a, b2, b2))
+		imp.WriteString(fmt.Sprintf("{%% var %s, %s = two() %%}", a, b2))
 	}
 	files["imp.html"] = imp.String()
 	var b strings.Builder
